@@ -5,6 +5,7 @@ import (
 	"encoding/gob"
 	"errors"
 	"io"
+	"math"
 	"runtime"
 	"sort"
 	"sync"
@@ -229,7 +230,12 @@ func (c *SyncMap) Restore(r io.Reader) (int, error) {
 
 func (c *syncMap) evictMostExpired(evictFraction float64) int {
 	return c.evictLeast(evictFraction, func(i *TraitEntry) int64 {
-		return atomic.LoadInt64(&i.E)
+		e := atomic.LoadInt64(&i.E)
+		if e == 0 {
+			return math.MaxInt64 // Entries without expiration are the last to evict.
+		}
+
+		return e
 	})
 }
 
